@@ -198,8 +198,9 @@ side_tables.rule_id = "C06.SIDE-TABLES"
 
 
 # --------------------------------------------------------------------------------------------
-def eval_add_vertices(repo: Repo, slave: Set[str], patches_by_side: Dict[str, str]):
-    """Abstract run of Mesh._add_vertices; returns (vertex list, [(point, patches handed to VertexList.add)])."""
+def eval_add_vertices(repo: Repo, slave: Set[str], patches_by_side: Dict[str, str], merged=None):
+    """Abstract run of Mesh._add_vertices; returns (vertex list, [(point, patches handed to VertexList.add)]). The patch list is a
+    symbolic PatchList whose own slave_patches / master_patches / is_slave code is evaluated from the merged pairs."""
     fn = repo.func("mesh.Mesh._add_vertices")
     op = real_operation(repo)
     for side, name in patches_by_side.items():
@@ -208,10 +209,10 @@ def eval_add_vertices(repo: Repo, slave: Set[str], patches_by_side: Dict[str, st
         else:
             op.get(f"{side}_face").set("patch_name", name)
     mesh = Obj("mesh", cls=repo.cls("mesh.Mesh"))
-    pl = Obj("patch_list")
-    pl.set("slave_patches", set(slave))
-    pl.set("master_patches", {"<master>"} | {p for p in patches_by_side.values() if p not in slave})
-    pl.set("merged", [["<master>", sp] for sp in sorted(slave)])
+    pl = Obj("patch_list", cls=repo.cls("lists.patch_list.PatchList"))
+    pl.set("merged", [list(m_) for m_ in merged] if merged is not None else [["<master>", sp] for sp in sorted(slave)])
+    pl.set("patches", {})
+    pl.set("default", {})
     mesh.set("patch_list", pl)
     mesh.set("vertex_list", Obj("vertex_list"))
     calls = []
